@@ -51,6 +51,8 @@ structure St where
   serial : Nat := 0
   stamps : List (String × Nat) := []   -- Mode.stamped: serial of the last request that registered the entry
   allStamp : Nat := 0
+  failPut : Nat := 0                   -- the admin server refuses the next `failPut` PUTs (manage requests)
+  failDel : Nat := 0                   -- … and the next `failDel` DELETEs (un-manage requests)
 deriving Repr
 
 /-- `staleVersionTTL` = 30 s -/
@@ -61,8 +63,26 @@ def stampOf (stamps : List (String × Nat)) (e : String) : Nat :=
   | [] => 0
   | (k, s) :: rest => if k = e then s else stampOf rest e
 
-/-- One reload (policy path; the flows path is the same without the global job). -/
-def reload (m : Mode) (st : St) (new : Req) : St :=
+/-- `updateHAProxyEndpoints`' loop: PUT the entries in order until the admin server refuses one.  Result: the
+    entries registered, the entries stamped (the refused one was stamped before its PUT), the failure budget left,
+    and whether the whole request went through. -/
+def putAll : Nat → List String → List String × List String × Nat × Bool
+  | f, [] => ([], [], f, true)
+  | 0, e :: es =>
+    let r := putAll 0 es
+    (e :: r.1, e :: r.2.1, r.2.2.1, r.2.2.2)
+  | f + 1, e :: _ => ([], [e], f, false)
+
+/-- `unmanageHAProxyEndpoints`' loop: DELETE in order until the admin server refuses one. -/
+def delAll : Nat → List String → List String × Nat
+  | f, [] => ([], f)
+  | 0, e :: es => let r := delAll 0 es; (e :: r.1, r.2)
+  | f + 1, _ :: _ => ([], f)
+
+/-- One update (`UpdatePoliciesData`; the flows path is the same without the global job).  The manage request
+    comes FIRST; only when it went through are the new policies published (`setNextVersion`) and the un-manage of
+    what left the configuration scheduled.  `publishFirst` = the other order (not the code; for the witness). -/
+def reload (m : Mode) (st : St) (new : Req) (publishFirst : Bool := false) : St :=
   let prev := st.cur
   let s := st.serial + 1
   let toRemove := match m with
@@ -70,19 +90,33 @@ def reload (m : Mode) (st : St) (new : Req) : St :=
     | _ => prev.eps.filter (fun e => !new.eps.contains e)
   let jobsG : List Job := if prev.ma && !new.ma then [⟨st.now + ttl, s, true, []⟩] else []
   let jobsE : List Job := if toRemove.isEmpty then [] else [⟨st.now + ttl, s, false, toRemove⟩]
+  let curFail := if publishFirst then new else st.cur
   if new.ma then
-    { st with all := true, allStamp := s, serial := s, cur := new, jobs := st.jobs ++ jobsG ++ jobsE }
+    match st.failPut with
+    | f + 1 => { st with allStamp := s, serial := s, failPut := f, cur := curFail }        -- PUT /manage_all refused
+    | 0 => { st with all := true, allStamp := s, serial := s, cur := new, jobs := st.jobs ++ jobsG ++ jobsE }
   else
-    { st with managed := st.managed ++ new.eps, stamps := new.eps.map (·, s) ++ st.stamps,
-              serial := s, cur := new, jobs := st.jobs ++ jobsG ++ jobsE }
+    let r := putAll st.failPut new.eps
+    let st1 := { st with managed := st.managed ++ r.1, stamps := r.2.1.map (·, s) ++ st.stamps, serial := s,
+                         failPut := r.2.2.1 }
+    if r.2.2.2 then { st1 with cur := new, jobs := st.jobs ++ jobsG ++ jobsE }
+    else { st1 with cur := curFail }
+
+/-- Does the manage request of an update go through (no PUT refused)? -/
+def reloadOK (st : St) (new : Req) : Bool :=
+  if new.ma then st.failPut == 0 else (putAll st.failPut new.eps).2.2.2
 
 /-- A job wakes up. -/
 def fire (m : Mode) (st : St) (j : Job) : St :=
   if j.global then
-    if m = .stamped ∧ j.serial < st.allStamp then st else { st with all := false }
+    if m = .stamped ∧ j.serial < st.allStamp then st
+    else match st.failDel with
+      | f + 1 => { st with failDel := f }
+      | 0 => { st with all := false }
   else
-    { st with managed := st.managed.filter fun e =>
-        !(j.eps.contains e && (m != .stamped || decide (stampOf st.stamps e ≤ j.serial))) }
+    let stale := j.eps.filter fun e => m != .stamped || decide (stampOf st.stamps e ≤ j.serial)
+    let r := delAll st.failDel stale
+    { st with managed := st.managed.filter (fun e => !r.1.contains e), failDel := r.2 }
 
 /-- Time passes: every job that is due fires. -/
 def advance (m : Mode) (st : St) (d : Nat) : St :=
@@ -93,11 +127,13 @@ def advance (m : Mode) (st : St) (d : Nat) : St :=
 inductive Ev where
   | reload (r : Req)
   | advance (d : Nat)
+  | fail (puts dels : Nat)        -- the admin server will refuse the next PUTs / DELETEs
 deriving Repr
 
 def step (m : Mode) (st : St) : Ev → St
   | .reload r => reload m st r
   | .advance d => advance m st d
+  | .fail p d => { st with failPut := p, failDel := d }
 
 def run (m : Mode) (st : St) (evs : List Ev) : St := evs.foldl (step m) st
 
